@@ -2,6 +2,13 @@
 """Adds the 'needs' text to seeded/*/meta.json (from the table below) and regenerates seeded/README.md."""
 import json, os, glob
 NEEDS = {
+ 'C01-frozen-line-ignores-direction': 'a -R series entry whose file patch has two hunks, the first deleting d more lines than it adds and the second starting within d unchanged lines (d >= 2c+1 at context width c): close changes at -U0, a net deletion of 7+ lines at -U3',
+ 'C04-rollback-ignores-applied-fuzz': '--fuzz >= 1, a modifying hunk that really needed fuzz, and that application being rolled back (--backup always, or onfail with a later failing patch)',
+ 'C07-union-compares-members-not-roots': 'at least five names first seen in the order y,z,a,b,c and the relations a-c, b-c, b-z, z-y in exactly that order (a deep inverted chain that the single compression pass flattens one level short)',
+ 'C09-named-goal-relative': 'an earlier invocation applied k>0 patches and a later one names its goal by patch name (not among the last k patches): it overshoots by k patches',
+ 'C10-sequential-rejects-in-dry-run': '--dry-run on a failing series through the single-threaded driver (--threads 1): a reject file is written',
+ 'C11-rename-with-one-name-accepted': 'a git patch with both "rename from" and "rename to" whose new side is /dev/null: accepted by the parser, unwrap panic when applied (exit 101)',
+ 'C12-modes-without-leading-zeros': 'a git file patch whose mode has a leading zero (000644, 040000): written with fewer than six digits, which the parser rejects',
  'C02-backward-scan-bound': 'a hunk with equal leading/trailing context whose stated line (plus previous offset) lies beyond file_len - hunk_len while its only/nearest match sits flush at the end of the file (e.g. after an earlier patch shrank the file)',
  'C03-frozen-line-untrimmed-suffix': '--fuzz >= 1, a hunk that only applies with fuzz (suffix context trimmed), followed by a hunk whose leading context overlaps the lines the first one changed',
  'C05-previous-deleted-after-apply': 'a failing patch with two entries: one creates or deletes a file cleanly, a sibling entry has a failing hunk, so the clean create/delete has to be undone',
